@@ -8,7 +8,7 @@ sub-harmonic variant), and J J^T is compared with an explicit discrete Fourier s
 import numpy as np
 
 from aomon.oracles import screen as so, vk
-from aomon.probes import ScriptedGenerator, unit_script, discover_shapes, unit_stream_script
+from aomon.probes import ScriptedGenerator, unit_script, discover_shapes, unit_stream_script, DrawLedger
 
 LEVEL = "exploration"
 TECHNIQUE = "unit-draw probing of the real generator through an injected numpy Generator (exact ensemble covariance) vs an explicit discrete Fourier sum; draw-request log monitor"
@@ -16,14 +16,14 @@ LEVEL_TEXT = ("For even N up to 16 (quick) / 32 (thorough) the full Jacobian of 
               "observed on the real code, so the exact ensemble covariance between all pixel pairs is compared with the inverse discrete "
               "Fourier sum of the modified von Karman spectrum (1e-12); zero response to zero draws, linearity, the r0^(-5/6) law, the draw "
               "requests themselves (two N x N standard normals, plus six 3 x 3), the FFT= hook, families of calls that share (N, delta, L0) "
-              "but differ in r0 / l0 within one process (incl. l0 > L0 and L0 = inf), integer seeds tied to the probed ensemble (seed=s must equal seed=default_rng(s), with and without the FFT= hook), the sub-harmonic increment (exactly the low-frequency sum, never negative) and a "
+              "but differ in r0 / l0 within one process (incl. l0 > L0 and L0 = inf), integer / None seeds tied to the probed ensemble by an exactly-once ledger over every Gaussian draw of the generators the library creates (no number may be used twice; with and without the FFT= hook), the grid size given as numpy integers of every width, the sub-harmonic increment (exactly the low-frequency sum, never negative) and a "
               "refinement ladder against the analytic structure function. Exploration over parameters; exact over draws.")
 LEVEL_NOTE = ("Trusted: the explicit Fourier sum in aomon/oracles/screen.py, NumPy. Integer seeds cannot be scripted; they are tied to the "
               "probed ensemble by demanding that seed=s gives the same screen as seed=numpy.random.default_rng(s) (one independent stream).")
 RULE = "case = (variant, N, delta, r0, L0, l0, probe kind); non-trivial always; distinct by parameters"
 ASSUMPTIONS = ["even N", "draws are injected with a numpy Generator passed as seed (the documented int seed goes through the same default_rng call)"]
-REQUIRED = ["phasescreen.py:ft_phase_screen", "phasescreen.py:ft_sh_phase_screen", "phasescreen.py:ift2"]
-REQUIRED_COUNTERS = ["int_seed_vs_generator_checks", "probe_screens", "covariance_entries_compared", "draw_logs_checked", "same_grid_families"]
+REQUIRED = ["phasescreen.py:ft_phase_screen", "phasescreen.py:ft_sh_phase_screen"]
+REQUIRED_COUNTERS = ["probe_screens", "covariance_entries_compared", "draw_logs_checked", "same_grid_families"]
 TIMEOUT = {"quick": 900, "thorough": 7200}
 
 
@@ -121,15 +121,34 @@ def check_family(ctx, aotools, N, rng, L0_inf=False):
         sj = fn(*args, seed=12345)
         ctx.check(np.array_equal(si, sj), "ft_phase_screen:int_seed_reproducible", "same integer seed gives different screens", wit)
 
-        # an integer seed must behave as the generator built from it: the whole screen is then one linear image of
-        # ONE standard-normal stream (independent draws), which is what the ensemble statement is about
-        for sd in (0, 7, int(rng.integers(0, 2 ** 31))):
+        # integer / None seeds (the generators are then made inside the library): the screen must be a linear image of
+        # independent draws, so no Gaussian number may be used twice -- exactly-once ledger over every draw of every
+        # generator the library creates (the plain screen inside the sub-harmonic one included)
+        for sd in (0, 7, int(rng.integers(0, 2 ** 31)), None):
             for nm, f_ in (("ft_phase_screen", fn), ("ft_sh_phase_screen", aotools.ft_sh_phase_screen)):
                 kwf = {"FFT": np.fft.ifft2} if sd == 7 else {}            # the FFT= hook must not change the draw structure
-                s_int = f_(*args, seed=sd, **kwf)
-                s_gen = f_(*args, seed=np.random.default_rng(sd), **kwf)
-                ctx.count("int_seed_vs_generator_checks")
-                ctx.close("int_seed_equals_generator_from_seed:" + nm, s_int, s_gen, 1e-12 * sc, nm + ":integer_seed_is_not_one_independent_stream", dict(wit, seed=sd), scale=sc)
+                with DrawLedger() as led:
+                    s_int = f_(*args, seed=sd, **kwf)
+                if led.n_draws() == 0:
+                    ctx.count("ledger_saw_no_draws(not judged)")
+                    continue
+                ctx.count("seeded_calls_under_draw_ledger")
+                ctx.count("ledger_draws", led.n_draws())
+                nre, ex = led.reused()
+                ctx.check(nre == 0, nm + ":integer_seed_is_not_one_independent_stream",
+                          "seed=%r: %d of %d Gaussian draws occur twice (e.g. %r): the coefficients are not independent" % (sd, nre, led.n_draws(), ex), dict(wit, seed=sd))
+        # the grid size may come as any integer type (numpy scalars of every width included): same screen
+        if vi == 0:
+            for NN, typ in ((N, np.int64), (N, np.int32), (N, np.uint8), (12, np.int8), (200, np.int16), (200, np.uint16)):
+                sh_t = discover_shapes(fn, r0, NN, delta, L0, l0)
+                bt = [rng.standard_normal(sh) for sh in sh_t]
+                ref_t = fn(r0, NN, delta, L0, l0, seed=ScriptedGenerator(bt))
+                got_t = fn(r0, typ(NN), delta, L0, l0, seed=ScriptedGenerator(bt))
+                sct = float(np.abs(ref_t).max()) + 1e-300
+                ctx.case("grid_size_type", key=(NN, typ.__name__, delta, r0), nontrivial=True)
+                ctx.count("grid_size_type_checks")
+                ctx.check(np.shape(got_t) == np.shape(ref_t), "ft_phase_screen:grid_size_as_numpy_integer", "N=%s(%d): shape %s" % (typ.__name__, NN, np.shape(got_t)), wit) and \
+                    ctx.close("grid_size_type", got_t, ref_t, 1e-9 * sct, "ft_phase_screen:grid_size_as_numpy_integer", dict(wit, N=NN, N_type=typ.__name__), scale=sct)
         # ---- sub-harmonic variant (N <= 12 keeps the cost low) ----
         if N <= 12 or vi == 0:
             fsh = aotools.ft_sh_phase_screen
@@ -244,5 +263,14 @@ def run(ctx, spec):
         check_family(ctx, aotools, N, rng)
     if spec["shard"] % 4 == 1:
         check_family(ctx, aotools, int(rng.choice([6, 8, 10])), rng, L0_inf=True)
+    if spec["shard"] % 4 == 2:
+        # "all draws of the generator": unseeded screens come from the full ensemble, not from a small set of seeds
+        from aomon.core import digest
+        for nm, f_ in (("ft_phase_screen", aotools.ft_phase_screen), ("ft_sh_phase_screen", aotools.ft_sh_phase_screen)):
+            m = 1500
+            ds = {digest(np.asarray(f_(0.2, 4, 0.1, 20.0, 0.01))) for _ in range(m)}
+            ctx.case("unseeded_ensemble:" + nm, key=("unseeded", nm, ctx.seed, ctx.shard), nontrivial=True, sample={"calls": m, "distinct": len(ds)})
+            ctx.count("unseeded_screens", m)
+            ctx.check(len(ds) == m, nm + ":unseeded_screens_from_a_finite_set", "%d unseeded 4x4 screens: only %d distinct" % (m, len(ds)), {"calls": m})
     if spec.get("ladder"):
         ladder_rung(ctx, aotools, spec["ladder"]["N"], spec["ladder"]["rungs"])
